@@ -354,7 +354,8 @@ fn cmd_diff(props: &str, max_exp: usize, max_lines: usize) -> (u64, Vec<String>)
 }
 
 // ------------------------------------------------------------------------------------------------ escape (C11 / C04 escaped)
-fn cmd_escape(mode: &str, maxlen: usize) -> (u64, Vec<String>) {
+thread_local! { static UNPRINTABLE_UNICODE: regex::Regex = regex::Regex::new(r"[\p{Cc}\p{Cf}\p{Cn}]").unwrap(); }
+fn cmd_escape(mode: &str, maxlen: usize, matching_only: bool) -> (u64, Vec<String>) {
     let maker = ExpectationMaker::new(RuleRegistry::default());
     let alpha: [u8; 14] = [0, 7, 9, 0x0b, 0x0c, 0x0d, 0x1b, b' ', b'\\', b'a', b'x', b'0', 0x7f, 0xc3];
     let mut strings: Vec<Vec<u8>> = vec![vec![]];
@@ -376,7 +377,7 @@ fn cmd_escape(mode: &str, maxlen: usize) -> (u64, Vec<String>) {
               // content that ends like a modifier the reader of escaped expectations treats specially
               "a\tb (no-eol)", "\u{1b}[1mx\u{1b}[0m (no-eol)", "\u{200b} (no-eol)", "\t (no-eol) (no-eol)", "\t(no-eol)", "\t (no-eol) ", "é\t (no-eol)", "\t (escaped)", "\t (esc)",
               // printable non-ASCII text with backslashes (nothing to escape: must be written as itself), and the same with something to escape
-              "café\\", "é\\t", "C:\\Users\\André\\temp", "é\\t\u{7}", "\\x41é", "日本\\0101"] {
+              "a\u{378}b", "fmt:\u{8e2}:", "\u{ffff}", "café\\", "é\\t", "C:\\Users\\André\\temp", "é\\t\u{7}", "\\x41é", "日本\\0101"] {
         strings.push(s.as_bytes().to_vec());
     }
     let mut n = 0u64;
@@ -394,11 +395,17 @@ fn cmd_escape(mode: &str, maxlen: usize) -> (u64, Vec<String>) {
             let text = esc.escaped_expectation(&line);
             let printable = if *mname == "ascii" { text.chars().all(|c| (0x20..=0x7e).contains(&(c as u32))) } else { text.chars().all(|c| !c.is_other()) };
             if !printable {
-                bad.push(format!("{{\"why\":\"C11 printable ({mname})\",\"content\":{},\"text\":{}}}", jbytes(content), jstr(&text)));
+                bad.push(format!("{{\"class\":\"printable\",\"why\":\"C11 printable ({mname})\",\"content\":{},\"text\":{}}}", jbytes(content), jstr(&text)));
+            }
+            // unicode mode: "no control, format or unassigned code points" -- by the Unicode tables of the regex crate, not by the table the escaper itself uses
+            if *mname == "unicode" && !matching_only {
+                if let Some(c) = text.chars().find(|c| UNPRINTABLE_UNICODE.with(|r| r.is_match(&c.to_string()))) {
+                    bad.push(format!("{{\"class\":\"unassigned-or-new-format\",\"why\":{},\"content\":{},\"text\":{}}}", jstr(&format!("C11 printable (unicode): the written text contains U+{:04X}, a control / format / unassigned code point", c as u32)), jbytes(content), jstr(&text)));
+                }
             }
             // "the line itself (an equal expectation) when that is printable text"
             if !esc.has_unprintable(content) && text != String::from_utf8_lossy(content) {
-                bad.push(format!("{{\"why\":\"C11 kind ({mname}): printable text is not written as itself\",\"content\":{},\"text\":{}}}", jbytes(content), jstr(&text)));
+                bad.push(format!("{{\"class\":\"kind\",\"why\":\"C11 kind ({mname}): printable text is not written as itself\",\"content\":{},\"text\":{}}}", jbytes(content), jstr(&text)));
             }
             // read back: as `escaped` when marked, else as `equal` (the kind C11 names; kind detection by the expectation regex is C08/C09)
             let exp = if let Some(t) = text.strip_suffix(" (escaped)") {
@@ -411,7 +418,7 @@ fn cmd_escape(mode: &str, maxlen: usize) -> (u64, Vec<String>) {
             match exp {
                 Ok(e) => {
                     if !e.matches(&line) {
-                        bad.push(format!("{{\"why\":\"C11 lossless ({mname}): written text does not match its own line\",\"content\":{},\"text\":{}}}", jbytes(content), jstr(&text)));
+                        bad.push(format!("{{\"class\":\"lossless\",\"why\":\"C11 lossless ({mname}): written text does not match its own line\",\"content\":{},\"text\":{}}}", jbytes(content), jstr(&text)));
                     }
                     // ... and no line with different content (sample: every other enumerated string)
                     if content.len() <= 2 {
@@ -419,13 +426,13 @@ fn cmd_escape(mode: &str, maxlen: usize) -> (u64, Vec<String>) {
                             let mut ol = other.clone();
                             ol.push(b'\n');
                             if e.matches(&ol) {
-                                bad.push(format!("{{\"why\":\"C11 lossless ({mname}): also matches different content\",\"content\":{},\"other\":{},\"text\":{}}}", jbytes(content), jbytes(other), jstr(&text)));
+                                bad.push(format!("{{\"class\":\"lossless\",\"why\":\"C11 lossless ({mname}): also matches different content\",\"content\":{},\"other\":{},\"text\":{}}}", jbytes(content), jbytes(other), jstr(&text)));
                                 break;
                             }
                         }
                     }
                 }
-                Err(err) => bad.push(format!("{{\"why\":\"C11: written text does not parse: {}\",\"content\":{},\"text\":{}}}", err.to_string().replace('"', "'"), jbytes(content), jstr(&text))),
+                Err(err) => bad.push(format!("{{\"class\":\"other\",\"why\":\"C11: written text does not parse: {}\",\"content\":{},\"text\":{}}}", err.to_string().replace('"', "'"), jbytes(content), jstr(&text))),
             }
             if bad.len() >= 3 {
                 return (n, bad);
@@ -1065,6 +1072,23 @@ fn cmd_c19(n: usize) -> (u64, Vec<String>) {
                 bad.push(format!("{{\"class\":\"content\",\"why\":{},\"outputs\":{}}}", jstr(&format!("C19: {name}: {w}")), jstr(&format!("{:?}", list.iter().map(|o| String::from_utf8_lossy(&o.output.stdout.to_bytes()).to_string()).collect::<Vec<_>>()))));
                 if bad.len() > 6 { return (cases, bad); }
             }
+        }
+    }
+    // the `+` line the pretty renderer shows for an unexpected output line is an expectation for THAT line: read back, it matches it
+    for out in [&b"foo\x01"[..], b"foo\x01\n", b"a\tb (no-eol)", b"plain", b"plain\n", b"tab\there"] {
+        cases += 1;
+        let testcase = TestCase { title: "t".into(), shell_expression: "cmd".into(), expectations: vec![], exit_code: None, line_number: 3, config: TestCaseConfig::empty() };
+        let output = Output { stderr: "".into(), stdout: out.to_vec().into(), exit_code: ExitStatus::Code(0) };
+        let result = testcase.validate(&output);
+        let oc = Outcome { location: Some("doc.md".into()), output, testcase, format: ParserType::Markdown, escaping: Escaper::default(), result };
+        let text = match std::panic::catch_unwind(std::panic::AssertUnwindSafe(|| PrettyMonochromeRenderer::new(PrettyColorRenderer::default()).render(&[&oc]))) { Ok(Ok(t)) => t, _ => continue };
+        // the text after the gutter of the first `+` line
+        let Some(shown) = text.lines().find_map(|l| l.split_once("| + ").map(|(_, t)| t.to_string()).or_else(|| l.split_once("|+ ").map(|(_, t)| t.to_string()))) else { continue };
+        let shown = shown.trim_end().to_string();
+        match maker.parse(&shown) {
+            Ok(e) if e.matches(out) => {}
+            Ok(_) => bad.push(format!("{{\"class\":\"shown-line\",\"why\":{},\"outputs\":{}}}", jstr(&format!("C19: pretty shows the unexpected line {:?} as `{shown}`, which as an expectation does not match that line", String::from_utf8_lossy(out))), jstr(&format!("{:?}", String::from_utf8_lossy(out))))),
+            Err(_) => {}
         }
     }
     (cases, bad)
@@ -1741,7 +1765,7 @@ fn main() {
             args.get(3).and_then(|s| s.parse().ok()).unwrap_or(2),
             args.get(4).and_then(|s| s.parse().ok()).unwrap_or(3),
         ),
-        "escape" => cmd_escape(args.get(2).map(|s| s.as_str()).unwrap_or("both"), args.get(3).and_then(|s| s.parse().ok()).unwrap_or(3)),
+        "escape" => cmd_escape(args.get(2).map(|s| s.as_str()).unwrap_or("both"), args.get(3).and_then(|s| s.parse().ok()).unwrap_or(3), args.get(4).map(|s| s == "matching").unwrap_or(false)),
         "config" => cmd_config(),
         "markdown" => cmd_markdown(),
         "cram-probe" => cmd_cram_probe(),
